@@ -11,6 +11,7 @@ from collections.abc import Sequence
 from types import MappingProxyType
 from typing import Any, overload, TypeVar
 
+from elementpath.helpers import split_white_spaces
 from .any_types import AtomicTypeMeta, AnySimpleType, AnyAtomicType
 from .untyped import UntypedAtomic
 from .string import NMToken, Idref, Entity
@@ -64,9 +65,9 @@ class ListType(Sequence[AnyAtomicType], AnySimpleType, metaclass=ListTypeMeta):
     @classmethod
     def decode(cls, value: Any) -> list[AnyAtomicType]:
         if isinstance(value, UntypedAtomic):
-            values = value.value.split() or ['']
+            values = split_white_spaces(value.value) or ['']
         elif isinstance(value, str):
-            values = value.split() or ['']
+            values = split_white_spaces(value) or ['']
         elif isinstance(value, list):
             values = value
         else:
